@@ -832,6 +832,37 @@ def _run(chk):
             chk.sample({"tag": t.qualified, "help_line": t.line,
                         "calls": [(c["template"], c["obs"][0]) for c in t.calls[:5]]}, limit=6)
 
+    # the same calls written inside an alias body: what the signature forbids is refused when the template that USES the
+    # alias is compiled, what it allows is accepted (a misuse hidden in an alias must not wait for the first file)
+    from tempren.template.exceptions import TemplateError as _TE
+    al, expect = {}, {}
+    for i, t in enumerate(x for x in tested if x.origin == "built-in" and x.category.lower() not in ("adhoc", "alias")):
+        rej = [c for c in t.calls if c["obs"][0] in ("bind", "ctx_missing", "ctx_forbidden") and c["template"] and "|" not in c["template"]]
+        acc = [c for c in t.calls if c["obs"][0] == "accept" and c["template"] and "|" not in c["template"] and "twice" not in c["why"]]
+        if rej:
+            al["Zr%d" % i] = rej[i % len(rej)]["template"]; expect["Zr%d" % i] = (False, t.qualified)
+        if acc:
+            al["Za%d" % i] = acc[i % len(acc)]["template"]; expect["Za%d" % i] = (True, t.qualified)
+    if al:
+        with impl.quiet_streams():
+            comp_al = impl.compiler(impl.registry(aliases=al))
+        for nm, (want_ok, q) in expect.items():
+            for host in ("%" + nm + "()", "x_%Alias." + nm + "()_%Core.Name()"):
+                try:
+                    with impl.quiet_streams():
+                        comp_al.compile(host)
+                    got_ok, err = True, None
+                except _TE as e:
+                    got_ok, err = False, e
+                except Exception as e:      # noqa: BLE001
+                    got_ok, err = None, e
+                chk.count(("alias-body", nm, host))
+                stats["alias_body_calls"] = stats.get("alias_body_calls", 0) + 1
+                if got_ok is not want_ok:
+                    chk.oracle_fail("%s inside an alias body (%r): compiling %r %s, the same call written in the template is %s" % (
+                        q, al[nm], host, "succeeds" if got_ok else "fails with %r" % (err,), "accepted" if want_ok else "rejected"),
+                        {"origin": "alias body", "tag": q, "alias": {nm: al[nm]}, "template": host})
+
     # CLI level (real registry, then generated registry)
     per_tag = 2 if quick else 5
     cli_rejections(chk, [t for t in tested if t.origin != "generated"], per_tag, stats)
